@@ -73,7 +73,7 @@ def reparse(kind, text, flags):
         return ("internal:" + type(e).__name__, repr(e)[:200])
 
 
-CONTEXT = {"Field", "FragmentSpread", "InlineFragment", "SelectionSet", "Directive", "Argument"}
+CONTEXT = {"Field", "FragmentSpread", "InlineFragment", "SelectionSet", "Directive", "Argument", "ObjectField"}
 _WRAPPED, _WRAPPED_SEEN = [], set()
 
 
@@ -93,8 +93,16 @@ def context_reparse(kind, piece, flags):
         pre, post = "{ a(", "\n)}"
     else:
         pre, post = "", "\nscalar A"
+    if kind == "ObjectField":
+        pre, post = "{ ", "\n}"
     wrapped = pre + piece + post
     try:
+        if kind == "ObjectField":               # through parse_value: the object literal whose only field is the node
+            v = P.parse_value(wrapped, **flags)
+            odd = True
+            if not (isinstance(v, A.ObjectValue) and len(v.fields) == 1 and v.loc == (0, len(wrapped))):
+                odd = "object"
+            return ("ok", wrapped, v.fields[0].to_dict(), len(pre), odd)
         doc = P.parse(wrapped, **flags)
     except GraphQLSyntaxError as e:
         return ("syntax", wrapped, e.position)
@@ -283,7 +291,7 @@ def check_tree(ctx, text, entry, flags, root, origin):
                          "the text of a node's span, wrapped in its minimal context, parses to a document that does not "
                          "contain an equal node (modulo the offset)", det(n, piece=piece, wrapped=cg[1]))
                 ok = False
-            elif cg[4] is True and len(_WRAPPED) < 600 and (kind, cg[1]) not in _WRAPPED_SEEN:
+            elif cg[4] is True and kind != "ObjectField" and len(_WRAPPED) < 600 and (kind, cg[1]) not in _WRAPPED_SEEN:
                 _WRAPPED_SEEN.add((kind, cg[1]))
                 _WRAPPED.append((cg[1], flags, kind))       # also sent to the Lean lexer + parser at the end of the run
             if cg[0] == "ok" and shift(cg[2], a - cg[3]) == want and cg[4] is not True:
